@@ -57,6 +57,39 @@ def jsonify(data):
     return json.loads(json.dumps(data, cls=ExtendedJSONEncoder))
 
 
+def plain(obj):
+    """object level -> plain data, not going through any dict()/serialize() of the code under test"""
+    import enum
+    from pydantic.v1 import BaseModel
+    if isinstance(obj, BaseModel):
+        return {k: plain(v) for k, v in obj.__dict__.items()}
+    if isinstance(obj, enum.Enum):
+        return obj.value
+    if isinstance(obj, (set, frozenset)):
+        return sorted(plain(x) for x in obj)
+    if isinstance(obj, dict):
+        return {k: plain(v) for k, v in obj.items()}
+    if isinstance(obj, (list, tuple)):
+        return [plain(x) for x in obj]
+    return obj
+
+
+def observe(cfg):
+    """what a configuration object holds, read through its public attributes"""
+    jobs = []
+    for job in cfg.iter_jobs():
+        d = plain(job.model)
+        d["_name"] = job.name
+        d["_blocking"] = sorted(job.get_blocking_jobs())
+        d["_group"] = job.submission_group
+        d["_estimate"] = job.estimated_run_minutes
+        jobs.append(d)
+    obs = {"jobs": jobs, "submission_groups": [plain(g) for g in cfg.submission_groups]}
+    for k in LIFECYCLE:
+        obs[k] = getattr(cfg, k)
+    return obs
+
+
 def canon(ser):
     """serialized configuration with blocked_by as sorted lists (it is a set)"""
     out = dict(ser)
@@ -441,18 +474,18 @@ PROPERTY_KINDS = {"missing_blocker", "duplicate_name", "duplicate_id_name", "inv
 # --------------------------------------------------------------------------------------------------
 # the independent Python reading of "valid" over a *loaded* configuration's serialization
 # --------------------------------------------------------------------------------------------------
-def spec_invalid_reasons(ser):
-    """reasons for which the property calls the loaded configuration invalid; None in a list entry
-    never occurs.  Returns (reasons, undecided) - undecided if a walltime is not H:MM:SS."""
+def spec_invalid_reasons(obs):
+    """reasons for which the property calls the configuration (an `observe` result) invalid.
+    Returns (reasons, undecided) - undecided if a walltime is not H:MM:SS."""
     reasons = []
     undecided = False
-    jobs = ser["jobs"]
-    groups = ser["submission_groups"]
-    names = [j["name"] if j["name"] is not None else str(j["job_id"]) for j in jobs]
+    jobs = obs["jobs"]
+    groups = obs["submission_groups"]
+    names = [j["_name"] for j in jobs]
     if len(set(names)) != len(names):
         reasons.append("duplicate job names")
     for j in jobs:
-        for b in j["blocked_by"]:
+        for b in j["_blocking"]:
             if b not in names:
                 reasons.append(f"blocker {b!r} does not exist")
     gnames = [g["name"] for g in groups]
@@ -461,8 +494,8 @@ def spec_invalid_reasons(ser):
     if len(set(gnames)) != len(gnames):
         reasons.append("duplicate group names")
     for j in jobs:
-        if j["submission_group"] not in gnames:
-            reasons.append(f"job group {j['submission_group']!r} is not listed")
+        if j["_group"] not in gnames:
+            reasons.append(f"job group {j['_group']!r} is not listed")
     for g in groups:
         p, p0 = g["submitter_params"], groups[0]["submitter_params"]
         for k in ("max_nodes", "poll_interval"):
@@ -476,13 +509,13 @@ def spec_invalid_reasons(ser):
         if w is None:
             walls[g["name"]] = None
         else:
-            s = wall_seconds(w)
-            if s is None:
+            sec = wall_seconds(w)
+            if sec is None:
                 undecided = True
-            walls[g["name"]] = s
+            walls[g["name"]] = sec
     for j in jobs:
-        est = j["estimated_run_minutes"]
-        g = j["submission_group"]
+        est = j["_estimate"]
+        g = j["_group"]
         if est is not None and g in walls and walls[g] is not None and est * 60 > walls[g]:
             reasons.append(f"estimate {est} min above walltime {walls[g]} s")
         if est is not None and g in walls and walls[g] is None and est * 60 > 0xFFFFFFFF:
@@ -490,35 +523,86 @@ def spec_invalid_reasons(ser):
     for g in groups:
         if g["submitter_params"]["per_node_batch_size"] == 0:
             for j in jobs:
-                if j["submission_group"] == g["name"] and j["estimated_run_minutes"] is None:
+                if j["_group"] == g["name"] and j["_estimate"] is None:
                     reasons.append("missing estimate with per_node_batch_size == 0 (time-based batching)")
     return reasons, undecided
 
 
 def roundtrip_differences(a, b):
-    """the attributes the property lists, compared between two serializations"""
+    """the attributes the property lists, compared between two observations"""
     diffs = []
-    ja, jb = a.get("jobs", []), b.get("jobs", [])
+    ja, jb = a["jobs"], b["jobs"]
     if len(ja) != len(jb):
-        diffs.append(f"number of jobs {len(ja)} != {len(jb)}")
+        diffs.append(f"jobs: {len(ja)} != {len(jb)}")
     for i, (x, y) in enumerate(zip(ja, jb)):
-        nx = x["name"] if x["name"] is not None else str(x["job_id"])
-        ny = y["name"] if y["name"] is not None else str(y["job_id"])
-        if nx != ny:
-            diffs.append(f"job {i}: name {nx!r} != {ny!r}")
-        for k in ("command", "cancel_on_blocking_job_failure", "submission_group", "estimated_run_minutes"):
+        if x["_name"] != y["_name"]:
+            diffs.append(f"name: job {i} {x['_name']!r} != {y['_name']!r}")
+        for k in ("command", "cancel_on_blocking_job_failure", "_group", "_estimate", "append_job_name",
+                  "append_output_dir", "use_multi_node_manager", "_blocking", "blocked_by", "name", "job_id", "ext"):
             if x.get(k) != y.get(k):
-                diffs.append(f"job {i} ({nx!r}): {k} {x.get(k)!r} != {y.get(k)!r}")
-        for k in ("append_job_name", "append_output_dir", "use_multi_node_manager"):
-            if x.get(k, False) != y.get(k, False):
-                diffs.append(f"job {i} ({nx!r}): {k} {x.get(k, False)!r} != {y.get(k, False)!r}")
-        if set(x["blocked_by"]) != set(y["blocked_by"]) or len(x["blocked_by"]) != len(y["blocked_by"]):
-            diffs.append(f"job {i} ({nx!r}): blocked_by {sorted(x['blocked_by'])} != {sorted(y['blocked_by'])}")
-    if a.get("submission_groups") != b.get("submission_groups"):
-        diffs.append("submission groups differ")
+                diffs.append(f"{k.lstrip('_')}: job {i} ({x['_name']!r}) {x.get(k)!r} != {y.get(k)!r}")
+    if a["submission_groups"] != b["submission_groups"]:
+        diffs.append("submission_groups: differ")
     for k in LIFECYCLE:
         if a.get(k) != b.get(k):
             diffs.append(f"{k}: {a.get(k)!r} != {b.get(k)!r}")
+    return diffs
+
+
+def _strip_all(v):
+    if isinstance(v, str):
+        return v.strip()
+    if isinstance(v, list):
+        return sorted(_strip_all(x) for x in v) if all(isinstance(x, str) for x in v) else v
+    return v
+
+
+def _subset(a, b):
+    """every value written in the file (a) is held by the object (b)"""
+    if isinstance(a, dict) and isinstance(b, dict):
+        return all(k in b and _subset(v, b[k]) for k, v in a.items())
+    if isinstance(a, list) and isinstance(b, list):
+        return len(a) == len(b) and all(_subset(x, y) for x, y in zip(a, b))
+    return a == b
+
+
+def file_vs_loaded_differences(content, obs):
+    """the attributes the property lists: what the file says (after the documented normalization:
+    strings stripped, blockers as a set of strings) against what the loaded objects hold"""
+    diffs = []
+    fj = content.get("jobs") or []
+    if len(fj) != len(obs["jobs"]):
+        return [f"jobs: {len(fj)} in the file, {len(obs['jobs'])} loaded"]
+    for i, (f, o) in enumerate(zip(fj, obs["jobs"])):
+        want = {
+            "name": f["name"].strip() if f.get("name") is not None else None,
+            "command": f["command"].strip(),
+            "_blocking": sorted({str(b).strip() for b in f.get("blocked_by") or []}),
+            "cancel_on_blocking_job_failure": f.get("cancel_on_blocking_job_failure", False),
+            "_estimate": f.get("estimated_run_minutes"),
+            "_group": f.get("submission_group", "default").strip(),
+            "append_job_name": f.get("append_job_name", False),
+            "append_output_dir": f.get("append_output_dir", False) or f.get("use_multi_node_manager", False),
+            "use_multi_node_manager": f.get("use_multi_node_manager", False),
+            "ext": f.get("ext", {}),
+        }
+        if f.get("job_id") is not None:
+            want["job_id"] = f["job_id"]
+        if want["name"] is not None:
+            want["_name"] = want["name"]
+        for k, v in want.items():
+            if _strip_all(o.get(k)) != _strip_all(v):       # (whether strings are stripped is not the property's business)
+                diffs.append(f"{k.lstrip('_')}: job {i} file says {v!r}, loaded {o.get(k)!r}")
+    fg = content.get("submission_groups") or []
+    if len(fg) != len(obs["submission_groups"]):
+        diffs.append(f"submission_groups: {len(fg)} in the file, {len(obs['submission_groups'])} loaded")
+    else:
+        for i, (f, o) in enumerate(zip(fg, obs["submission_groups"])):
+            if f["name"].strip() != o["name"].strip() or not _subset(f["submitter_params"], o["submitter_params"]):
+                diffs.append(f"submission_groups: group {i} differs from the file")
+    for k in LIFECYCLE:
+        if content.get(k) != obs.get(k):
+            diffs.append(f"{k}: file says {content.get(k)!r}, loaded {obs.get(k)!r}")
     return diffs
 
 
@@ -606,7 +690,7 @@ def run_file(content, tmp):
     from jade.jobs.job_configuration_factory import create_config_from_file
     from jade.jobs.job_submitter import JobSubmitter
     d = tempfile.mkdtemp(dir=tmp)
-    res = {"loaded": None, "load_error": None, "events": [], "submit_error": None, "exc_class": None, "commands": []}
+    res = {"loaded": None, "observed": None, "load_error": None, "events": [], "submit_error": None, "exc_class": None, "commands": []}
     try:
         f = os.path.join(d, "user_config.json")
         with open(f, "w") as fh:
@@ -619,6 +703,7 @@ def run_file(content, tmp):
                 res["events"], res["commands"] = list(b.events), list(b.commands)
                 return res
             res["loaded"] = jsonify(cfg.serialize())
+            res["observed"] = observe(cfg)
             out = os.path.join(d, "output")
             try:
                 JobSubmitter.run_submit_jobs(cfg, out)
@@ -633,20 +718,23 @@ def run_file(content, tmp):
 
 def roundtrip(desc, tmp):
     """programmatic construction -> serialize -> dump(file) -> create_config_from_file -> serialize.
-    -> (s1, s2) or (None, error)"""
+    -> dict(s1, s2, o1, o2) (serializations and object-level observations) or dict(error=...)"""
     from jade.jobs.job_configuration_factory import create_config_from_file
     d = tempfile.mkdtemp(dir=tmp)
     try:
         try:
             cfg = build_programmatically(desc)
         except Exception as e:              # noqa: BLE001
-            return None, classify(e)
+            return {"error": classify(e)}
+        o1 = observe(cfg)
         s1 = jsonify(cfg.serialize())
         f = os.path.join(d, "config.json")
         cfg.dump(f)
-        cfg2 = create_config_from_file(f)
-        s2 = jsonify(cfg2.serialize())
-        return s1, s2
+        try:
+            cfg2 = create_config_from_file(f)
+        except Exception as e:              # noqa: BLE001
+            return {"s1": s1, "o1": o1, "reload_error": classify(e)}
+        return {"s1": s1, "o1": o1, "s2": jsonify(cfg2.serialize()), "o2": observe(cfg2)}
     finally:
         shutil.rmtree(d, ignore_errors=True)
 
